@@ -159,3 +159,91 @@ def latebind_rule(chk, repo, rule: str, prefixes) -> int:
                      f"every closure built this way sees the LAST value of `{cap}` (all blocks use the last block's operator); bind with a default "
                      f"argument or call it inside the iteration", fn)
     return n
+
+
+# ----------------------------------------------------------------------------------------------------------------- re-bound captured variable
+def scan_rebound(tree: ast.AST):
+    """A nested function reads a local variable of its enclosing function as a free variable; the enclosing function binds that variable AGAIN after
+    the nested function was defined, and then CALLS the nested function (directly, by its name) at a point the new binding reaches. The call computes
+    with the later value although the function was written - and defined - against the earlier one (typical when one name is re-used for two
+    quantities). Returns (closure node, variable, call node) triples. Closures that are never called by name in the enclosing function (stored,
+    returned, passed on) are outside this scan."""
+    from .cfg import CFG, ReachingDefs
+    out = []
+    for encl in ast.walk(tree):
+        if not isinstance(encl, (ast.FunctionDef, ast.AsyncFunctionDef)):
+            continue
+        inner = [s for s in ast.walk(encl) if isinstance(s, ast.FunctionDef) and s is not encl and _direct_parent_fn(s) is encl]
+        if not inner:
+            continue
+        g = rd = None
+        for fn in inner:
+            free = _free_reads(fn)
+            if not free:
+                continue
+            calls = [c for c in ast.walk(encl) if isinstance(c, ast.Call) and isinstance(c.func, ast.Name) and c.func.id == fn.name and _direct_parent_fn(c) is encl]
+            if not calls:
+                continue
+            if g is None:
+                g = CFG(encl)
+                rd = ReachingDefs(g)
+            try:
+                dn = g.node_of(fn)
+            except Exception:
+                continue
+            for v in sorted(free):
+                at_def = set(rd.reaching(dn, v))
+                if not at_def or at_def == {g.entry.id}:
+                    continue            # not a local of the enclosing function (global / builtin / parameter never re-bound)
+                for c in calls:
+                    try:
+                        cn = g.stmt_node_containing(c)
+                    except Exception:
+                        continue
+                    at_call = set(rd.reaching(cn, v))
+                    if at_call and not at_call <= at_def:
+                        out.append((fn, v, c))
+    return out
+
+
+def _direct_parent_fn(node):
+    for anc in parents(node):
+        if isinstance(anc, (ast.FunctionDef, ast.AsyncFunctionDef, ast.Lambda)):
+            return anc
+    return None
+
+
+_CONTROL2 = '''
+def sample(self, x, D, n):
+    beta = 1e-5
+    def Lk(x_k):
+        return D @ x_k / (x_k ** 2 + beta)
+    a = Lk(x) @ x
+    beta = self.rate
+    b = Lk(x) @ x
+    return a, b, beta
+'''
+
+
+def rebound_rule(chk, repo, rule: str, prefixes) -> int:
+    from .index import _set_parents, AnchorError
+    ctl = ast.parse(_CONTROL2)
+    _set_parents(ctl)
+    hits = scan_rebound(ctl)
+    if [(h[1], h[2].lineno) for h in hits] != [("beta", 8)]:
+        raise AnchorError(f"re-bound capture positive control did not fire as expected: {[(h[1], h[2].lineno) for h in hits]}")
+    n = 0
+    for rel in sorted(repo.modules):
+        if not rel.startswith(tuple(prefixes)):
+            continue
+        m = repo.modules[rel]
+        repo.consulted[rel] = m.digest
+        found = scan_rebound(m.tree)
+        n += 1
+        if not found:
+            chk.ok(rule, f"{rel}/rebound-captures", f"{rel}:1", "no nested function is called after a variable it reads was bound again")
+        for fn, v, c in found:
+            chk.fail(rule, f"{rel}/rebound-capture@{fn.name}:{v}", f"{rel}:{c.lineno}",
+                     f"`{fn.name}` reads `{v}` of the enclosing function; `{v}` is bound again before the call `{ast.unparse(c)[:50]}` (line {c.lineno}), so "
+                     f"this call computes with the later value instead of the one the function was defined against", c)
+    return n
